@@ -161,7 +161,7 @@ class FuncGen:
     # ---- statements
     def stmt(self, depth=0):
         r = self.rng
-        kinds = ["decl", "decl", "assign", "sink", "sink", "gwrite", "gwrite", "fwrite", "call", "closure0", "closure1",
+        kinds = ["decl", "decl", "assign", "sink", "sink", "gwrite", "gwrite", "fwrite", "selfcopy", "call", "closure0", "closure1",
                  "iface", "tuple", "slice", "map", "ptr", "chan", "gfunc", "sdecl", "awrite", "mwrite", "lwrite",
                  "ifacecall", "sanit", "triple"]
         if depth < 2:
@@ -199,6 +199,11 @@ class FuncGen:
             if t.startswith("&") or t.endswith(")"):
                 t = "GS"
             self.emit("%s.%s = %s" % (t, r.pick(["f", "g"]), self.s()))
+        elif k == "selfcopy" and self.structs:
+            # data moved between two access paths of one pointer (a self edge of the parameter node when the
+            # pointer is a parameter and the analysis is field sensitive)
+            t = r.pick(self.structs)
+            self.emit("%s.%s = %s.%s" % (t, r.pick(["f", "g"]), t, r.pick(["f", "g", "n.f", 'm["a"]', "l[0]"])))
         elif k == "call":
             self.emit("f%d(%s, %s)" % (r.below(self.g.nfuncs), self.s(), self.st()))
         elif k == "closure0":
